@@ -240,6 +240,13 @@ def run(ctx):
                       if idx % 997 == 0 else None)
         ctx.count('templates', len(TEMPLATES))
 
+        from vk.gen import products
+        for idx, (key, text) in enumerate(products.lexical_products()):
+            if idx % ctx.nshards != ctx.shard or (ctx.tier == 'quick' and (idx // ctx.nshards) % 2):
+                continue
+            check(ctx, log, text, text, '\n' in text or '\u2028' in text, 'lexical_product')
+            ctx.hit('lexical_product')
+
         nprog = ctx.pick(160, 2600)
         max_subsets = ctx.pick(16, 64)
 
